@@ -70,7 +70,7 @@ def allorfs (j : Json) : R Json := do
   let tbl := if intFD j "table" 11 = 1 then (Gen.forwardTable1, Gen.stopCodons1) else (Gen.forwardTable11, Gen.stopCodons11)
   let rp := recordParts L genes area
   let areas := orfAreas L rp.1 rp.2 minLen pad
-  let locs := findAllOrfsRec rec_ genes area minLen pad
+  let locs := findAllOrfsSorted rec_ genes area minLen pad
   let allGenes := genes.map geneOf
   let inGaps := match areas with
     | none => true
